@@ -143,6 +143,19 @@ class MethodExpander:
                     arm = st.body if v else st.orelse
                     # the chosen arm is executed (it may return, assign or accumulate), then the rest
                     return self._body(f, list(arm) + body[i + 1 :], env)
+                # fast path for an identity metric: `if isinstance(self.metric, IdentityMatrix): <special>`
+                # the general arm is the value; the special arm must equal it with the metric atoms dropped
+                if isinstance(t, ast.Call) and norm(t.func) == "isinstance" and len(t.args) == 2 and norm(t.args[0]) == "self.metric" and norm(t.args[1]).split(".")[-1] == "IdentityMatrix":
+                    special, general = (st.orelse, st.body) if neg else (st.body, st.orelse)
+                    gen = self._body(f, list(general) + body[i + 1 :], env)
+                    spec = self._body(f, list(special) + body[i + 1 :], env)
+                    ident = {"self.metric.inv", "self.metric", "self.metric.sqrt", "self.metric.T", "self.metric.inv.T"}
+                    red = LinComb.zero()
+                    for w, c in gen.t.items():
+                        red = red + LinComb({tuple(a for a in w if a not in ident): c})
+                    if not red.equals(spec):
+                        raise AnalysisError(f"{f.qualname}: the identity-metric fast path gives {spec!r}, the general formula with an identity metric {red!r}")
+                    return gen
                 raise AnalysisError(f"{f.qualname}: branch on {norm(st.test)} outside the value grammar")
             if isinstance(st, ast.Expr) and isinstance(st.value, ast.Constant):
                 continue
